@@ -115,11 +115,11 @@ type c14WorkerOut struct {
 type c14ParsedAuthz struct {
 	decision string
 	reasons  string
-	errs     map[string]string // id@pos -> message
+	errs     map[string][]string // id@pos -> messages (a policy yielded twice may fail with two different messages)
 }
 
 func c14ParseAuthz(s string) c14ParsedAuthz {
-	p := c14ParsedAuthz{errs: map[string]string{}}
+	p := c14ParsedAuthz{errs: map[string][]string{}}
 	var rs []string
 	for _, l := range strings.Split(s, "\n") {
 		switch {
@@ -129,7 +129,7 @@ func c14ParseAuthz(s string) c14ParsedAuthz {
 			rs = append(rs, l)
 		case strings.HasPrefix(l, "E "):
 			if i := strings.IndexByte(l, '\t'); i >= 0 {
-				p.errs[l[2:i]] = l[i+1:]
+				p.errs[l[2:i]] = append(p.errs[l[2:i]], l[i+1:])
 			}
 		default:
 			p.decision += "?" + l // panic text etc.: never equal to a well-formed observation
@@ -250,14 +250,16 @@ func c14ClassifyAuthz(variants []string, asts map[string]*ast.Policy, env eval.E
 		if p.decision != ps[0].decision || p.reasons != ps[0].reasons || len(p.errs) != len(ps[0].errs) {
 			return nil
 		}
-		for k, m := range p.errs {
+		for k, ms := range p.errs {
 			if _, ok := ps[0].errs[k]; !ok {
 				return nil
 			}
 			if msgs[k] == nil {
 				msgs[k] = map[string]bool{}
 			}
-			msgs[k][m] = true
+			for _, m := range ms {
+				msgs[k][m] = true
+			}
 		}
 	}
 	got := map[string]string{}
